@@ -71,13 +71,14 @@ TPeek ==
   /\ \A i \in 1..Len(Ev.keys) : st[Ev.keys[i]].off = Ev.offs[i] /\ st[Ev.keys[i]].id = Ev.ids[i]
   /\ UNCHANGED vars
 
-TSilent == (SweepExpire \/ SweepRemove \/ SweepIdem \/ ExpirePhase1 \/ ExpirePhase2) /\ UNCHANGED l
+TSilent == (SweepExpire \/ SweepRemove \/ SweepIdem \/ ExpirePhase1 \/ ExpirePhase2 \/ ExpireDeliver) /\ UNCHANGED l
 
 TReset ==
   /\ IsEvent("Reset")
   /\ chEx' = FALSE /\ chOrd' = FALSE /\ st' = Empty /\ top' = 0 /\ win' = <<>> /\ ep' = 0 /\ epc' = 0
   /\ expAt' = 0 /\ expQ' = 0 /\ remAt' = 0 /\ remQ' = 0
   /\ idem' = Empty /\ iq' = {} /\ gidem' = Empty /\ nkc' = 0 /\ pend' = <<>>
+  /\ hq = <<>>
   /\ now' = 0 /\ npub' = 0 /\ nops' = 0 /\ bc' = <<>>
   /\ UNCHANGED cf
   /\ step' = [act |-> "Init"]
@@ -86,12 +87,12 @@ TraceInit ==
   /\ cf = Cfg("per", FALSE, 0, 1, 1, 0)
   /\ chEx = FALSE /\ chOrd = FALSE /\ st = Empty /\ top = 0 /\ win = <<>> /\ ep = 0 /\ epc = 0
   /\ expAt = 0 /\ expQ = 0 /\ remAt = 0 /\ remQ = 0
-  /\ idem = Empty /\ iq = {} /\ gidem = Empty /\ nkc = 0 /\ pend = <<>>
+  /\ idem = Empty /\ iq = {} /\ gidem = Empty /\ nkc = 0 /\ pl = FALSE /\ hq = <<>> /\ sub = {} /\ pend = <<>>
   /\ now = 0 /\ npub = 0 /\ nops = 0 /\ bc = <<>>
   /\ step = [act |-> "Init"]
   /\ l = 1 /\ TLCSet(1, 0)
 TraceNext == TCfg \/ TTick \/ TPublish \/ TRemove \/ TClear \/ TReadState \/ TReadStream \/ TPeek \/ TSilent \/ TReset
-TraceSpec == TraceInit /\ [][TraceNext]_tvars
+TraceSpec == TraceInit /\ [][TraceNext /\ (IF l' = l + 1 /\ Trace[l].ev = "Peek" THEN TRUE ELSE Frame)]_tvars
 
 \* high-water mark of the consumed prefix (silent steps make the diameter useless); -workers 1
 HighWater == TLCSet(1, IF TLCGet(1) < l - 1 THEN l - 1 ELSE TLCGet(1))
